@@ -94,6 +94,11 @@ BINARY_DUNDERS = {"__eq__", "__ne__", "__lt__", "__le__", "__gt__", "__ge__", "_
 ITER_BUILTINS = {"zip", "enumerate", "map", "filter", "iter", "chain", "zip_strict", "zip_longest", "product", "islice", "partial"}
 
 
+def _modname(o):
+    m = getattr(o, "__module__", "")
+    return m if isinstance(m, str) else ""
+
+
 class FieldMap(dict):
     """(object, attribute) -> points-to set, with an index of the attributes stored per object."""
 
@@ -234,6 +239,8 @@ class Analysis:
         self._modctx = {}
         self._glob_elems = {}
         self._late = {}
+        self._folded = {}
+        self.folded_calls = set()
         self.dunder_insts = defaultdict(set)
         self.narrow = []  # active narrowings: (ctx key, local name, filter)
         self.deferred = 0  # >0 while the body of a generator expression is evaluated (it runs later)
@@ -417,7 +424,7 @@ class Analysis:
                 self.globals_mut.setdefault(a.key(), a)
                 self.mutated_globs.add(id(o.py))
             elif o.kind == "cls":
-                if getattr(o.py, "__module__", "").startswith(self.pkg):
+                if _modname(o.py).startswith(self.pkg):
                     a = Alarm(st, what, o.label, self.cur.key)
                     self.globals_mut.setdefault(a.key(), a)
             if o.through and o.target:
@@ -1786,7 +1793,7 @@ class Analysis:
 
     def instantiate(self, c, node, args, kwargs, star_kw, ctx):
         pycls = c.py
-        mod = getattr(pycls, "__module__", "")
+        mod = _modname(pycls)
         A = self.all_args(args, kwargs, star_kw)
         if pycls is super:
             return self.lib_call("super", None, node, args, kwargs, star_kw, ctx)
@@ -1943,7 +1950,7 @@ class Analysis:
         `with`, operators, attribute fallback).  Special methods this scheme cannot express are flagged."""
         seen = set()
         for k in o.py.__mro__:
-            if not getattr(k, "__module__", "").startswith(self.pkg):
+            if not _modname(k).startswith(self.pkg):
                 continue
             if type(k).__module__.startswith(self.pkg):
                 self.flag(node, f"metaclass {type(k).__name__}")
@@ -1995,7 +2002,7 @@ class Analysis:
             return self.new_cont(node, el, "sum")
         if name == "cast" and len(args) == 2:
             return set(args[1][1])
-        if py is not None and getattr(py, "__module__", "").startswith("booleanOperations"):
+        if py is not None and _modname(py).startswith("booleanOperations"):
             # union(contours, outPen) & co draw their result into the pen given as second argument
             if len(args) > 1:
                 self.mutate_through(args[1][1], node, f"{name}(…, pen)")
@@ -2122,7 +2129,133 @@ class Analysis:
             self.add(self.F[(o, "k:" + kk)], s_)
         return r
 
+    # ---- constant folding of class-level reflection ---------------------------------------------------------------
+    # e.g. `sys.modules[cls.__module__]`, `getattr(module, cls.__name__[:-6] + "IFilter", None)`: code that maps a class
+    # object to another class object by name. Strings are not tracked, so abstractly this is "any attribute of any
+    # module". But when every argument of the call is ONE concrete class / module object, and the function's text
+    # is nothing but local assignments, if / return, attribute and subscript READS, string formatting / slicing /
+    # comparison and calls of getattr / hasattr / isinstance / issubclass / type / len / str and of str methods, then
+    #  * it writes nothing (so no effect is lost by not analysing its body), and
+    #  * its result depends only on its arguments and on attributes of classes / modules / sys.modules, which are the
+    #    same objects at analysis time and at run time -- ASSUMPTION (listed in the evidence): class- and module-level
+    #    state at the time of the call is the state after import (analysed code that would change it is reported by
+    #    the global-state obligations; other code is outside the model); class attributes read are plain values
+    #    (the classes involved have no metaclass of their own).
+    # Hence evaluating the real function on the real class objects now yields the value it yields at run time.
+    FOLD_BUILTINS = {"getattr", "hasattr", "isinstance", "issubclass", "type", "len", "str"}
+    FOLD_STR_METHODS = {"endswith", "startswith", "lower", "upper", "replace", "strip", "lstrip", "rstrip", "split", "rsplit", "join", "format", "title",
+                        "capitalize", "removeprefix", "removesuffix"}
+
+    def class_pure(self, fn):
+        if hasattr(fn, "_pure"):
+            return fn._pure
+        ok = fn.py is not None and isinstance(fn.node, ast.FunctionDef) and not fn.is_gen
+        if ok:
+            a = fn.node.args
+            local = {x.arg for x in a.posonlyargs + a.args + a.kwonlyargs}
+            ok = not a.vararg and not a.kwarg
+
+            def expr(e):
+                if isinstance(e, ast.Constant):
+                    return True
+                if isinstance(e, ast.Name):
+                    if not isinstance(e.ctx, ast.Load):
+                        return False
+                    if e.id in local:
+                        return True
+                    g = fn.module.__dict__.get(e.id, self)
+                    return isinstance(g, types.ModuleType) or (e.id in self.FOLD_BUILTINS and g is self)
+                if isinstance(e, ast.Attribute):
+                    return isinstance(e.ctx, ast.Load) and expr(e.value)
+                if isinstance(e, ast.Subscript):
+                    sl = e.slice
+                    parts = [sl.lower, sl.upper, sl.step] if isinstance(sl, ast.Slice) else [sl]
+                    return isinstance(e.ctx, ast.Load) and expr(e.value) and all(p is None or expr(p) for p in parts)
+                if isinstance(e, ast.JoinedStr):
+                    return all(expr(v) for v in e.values)
+                if isinstance(e, ast.FormattedValue):
+                    return expr(e.value) and (e.format_spec is None or expr(e.format_spec))
+                if isinstance(e, ast.Compare):
+                    return expr(e.left) and all(expr(c) for c in e.comparators)
+                if isinstance(e, ast.BoolOp):
+                    return all(expr(v) for v in e.values)
+                if isinstance(e, ast.UnaryOp):
+                    return expr(e.operand)
+                if isinstance(e, ast.BinOp):
+                    return isinstance(e.op, (ast.Add, ast.Mod)) and expr(e.left) and expr(e.right)
+                if isinstance(e, ast.IfExp):
+                    return expr(e.test) and expr(e.body) and expr(e.orelse)
+                if isinstance(e, ast.Call):
+                    if e.keywords or any(isinstance(x, ast.Starred) for x in e.args) or not all(expr(x) for x in e.args):
+                        return False
+                    if isinstance(e.func, ast.Name):
+                        return e.func.id in self.FOLD_BUILTINS and e.func.id not in local and e.func.id not in fn.module.__dict__
+                    return isinstance(e.func, ast.Attribute) and e.func.attr in self.FOLD_STR_METHODS and expr(e.func.value)
+                return False
+
+            def block(stmts):
+                for st in stmts:
+                    if isinstance(st, ast.Expr):
+                        if not (isinstance(st.value, ast.Constant) and isinstance(st.value.value, str)):
+                            return False
+                    elif isinstance(st, ast.Assign):
+                        if not (len(st.targets) == 1 and isinstance(st.targets[0], ast.Name) and expr(st.value)):
+                            return False
+                        local.add(st.targets[0].id)
+                    elif isinstance(st, ast.If):
+                        if not (expr(st.test) and block(st.body) and block(st.orelse)):
+                            return False
+                    elif isinstance(st, ast.Return):
+                        if st.value is not None and not expr(st.value):
+                            return False
+                    elif not isinstance(st, ast.Pass):
+                        return False
+                return True
+
+            # names assigned anywhere in the body are locals from the start (python scoping)
+            for n in ast.walk(fn.node):
+                if isinstance(n, ast.Name) and isinstance(n.ctx, ast.Store):
+                    local.add(n.id)
+            ok = ok and block(fn.node.body)
+        fn._pure = ok
+        return ok
+
+    def fold(self, fn, pos, kw, star_kw):
+        """-> the abstract result of calling the class-pure `fn` on concrete class / module arguments, or None"""
+        if kw or star_kw or not pos or not self.class_pure(fn):
+            return None
+        a = fn.node.args
+        if len(pos) != len(a.posonlyargs + a.args):
+            return None
+        conc = []
+        for s_ in pos:
+            if len(s_) != 1:
+                return None
+            (o,) = s_
+            if o.kind == "cls" and isinstance(o.py, type) and type(o.py).__module__ in ("builtins", "abc"):
+                conc.append(o.py)
+            elif o.kind == "mod":
+                conc.append(o.py)
+            else:
+                return None
+        key = (id(fn.py), tuple(id(c) for c in conc))
+        if key not in self._folded:
+            try:
+                self._folded[key] = (True, fn.py(*conc))
+            except Exception:
+                self._folded[key] = (False, None)
+        okv, val = self._folded[key]
+        if not okv:
+            return None
+        if val is None or isinstance(val, (type, types.ModuleType)) or self.is_scalar(val):
+            self.folded_calls.add(fn.qual)
+            return self.wrap_py(val, "folded")
+        return None
+
     def call_func(self, fn, pos, kw, node, ctx, args=None, kwargs=None, star_kw=frozenset()):
+        fv = self.fold(fn, pos, kw, star_kw)
+        if fv is not None:
+            return fv
         if fn.qual.startswith("ufo2ft.util:prune_unknown_kwargs@") and pos:
             return set(pos[0])  # returns the subset of its first argument that the callables accept
         if fn.qual.startswith("ufo2ft.filters:getFilterClass@"):
@@ -2606,7 +2739,7 @@ class Analysis:
                     if isinstance(s, ast.Raise):
                         # `raise Cls` instantiates the class without arguments
                         for o in list(v):
-                            if o.kind == "cls" and getattr(o.py, "__module__", "").startswith(self.pkg):
+                            if o.kind == "cls" and _modname(o.py).startswith(self.pkg):
                                 v = v | self.instantiate(o, s, [], {}, set(), ctx)
                         self.add(self.F[(self.EXC, "[]")], {o for o in v if o.kind in ("inst", "ext", "SRC", "GS", "cont")})
         elif isinstance(s, ast.Match):
